@@ -299,6 +299,32 @@ def write_replay(pid, kind, payload):
     return path
 
 
+def apply_known(rep, pid, seen):
+    """seen: {signature: (message, family, case, op index)} from the monitors.
+    Listed open findings are replayed on the implementation: reproduced -> KNOWN-FINDING line;
+    a signature seen by a monitor but not listed -> violation."""
+    import findings as FD
+    listed = known_findings(pid)
+    sigs = {f.get("signature") for f in listed}
+    for f in listed:
+        fn = FD.REPLAYS.get(f["id"])
+        if fn is None:
+            rep.notes.append(f"known finding {f['id']} has no replay function")
+            continue
+        try:
+            ok, detail = fn()
+        except Exception as ex:       # the replay itself fails: report, do not hide
+            ok, detail = False, f"replay raised {ex!r}"
+        if ok:
+            rep.known.append(f"{f['id']}: {f['what']} [{detail}]")
+        else:
+            rep.notes.append(f"known finding {f['id']} no longer reproduces ({detail}); remove it from known_findings.json or mark it fixed")
+    for sig, (msg, fam, case, i) in seen.items():
+        if sig not in sigs:
+            import corr_comp as K
+            rep.violation("counterexample", f"{pid}: {msg}", {"family": fam, "case": K.case_json(case), "signature": sig}, True)
+
+
 class Report:
     """Collects what a check run did and renders evidence + verdict."""
 
